@@ -91,6 +91,7 @@ def build(rnd, spec):
                        'warmup': 0})
     return {'watchers': ws, 'global_warmup': gw, 'sockets': rnd.random() < .7 or bool(spec.get('replace')),
             'replace': rnd.random() < .4 or bool(spec.get('replace')),
+            'reuse_unix': rnd.random() < .4 or bool(spec.get('replace')),
             'late_add': (rnd.random() < .35 or bool(spec.get('late_add'))) and arrival in ('idle',),
             'pidfile': spec.get('pidfile') or rnd.choice(['none', 'config', 'cli']) if not spec.get('prepid') else 'config'}
 
@@ -108,6 +109,11 @@ def ini_for(d, conf):
     if conf['sockets']:
         txt += ('[socket:u]\npath = @DIR@/managed.sock\n%s\n[socket:i]\nhost = 127.0.0.1\nport = 0\n\n'
                 % ('replace = True\n' if conf.get('replace') else ''))
+        if conf.get('reuse_unix'):
+            # a unix socket that is bound per worker (so_reuseport): its file is the daemon's to remove all the same
+            txt += ('[socket:r]\npath = @DIR@/reuse.sock\nso_reuseport = True\n\n'
+                    '[watcher:wr]\ncmd = %s --fd $(circus.sockets.r)\nuse_sockets = True\nnumprocesses = 1\n'
+                    'graceful_timeout = 1\ncopy_env = True\n\n' % live.worker_cmd({'log': '@LOG@'}))
     return txt
 
 
@@ -191,7 +197,7 @@ def _case(d, conf, spec, pidfile, res):
         res.nontrivial('pidfile-live:%s' % rc)
         res.sample = {'case': 'pid file names a live process', 'exit_status': rc}
         return
-    nworkers = sum(w['np'] for w in conf['watchers'])
+    nworkers = sum(w['np'] for w in conf['watchers']) + (1 if conf['sockets'] and conf.get('reuse_unix') else 0)
     if arrival == 'early-startup':
         t_end = time.time() + 15
         while time.time() < t_end and not (os.path.exists(pidfile) and open(pidfile).read().strip()):
@@ -336,6 +342,9 @@ def _case(d, conf, spec, pidfile, res):
                       % (how, arrival, rc, left))
     if conf['sockets'] and os.path.exists(sock_path):
         res.violation('C08/unix-socket-file-left', 'managed unix socket %s still exists after shutdown' % sock_path)
+    if conf['sockets'] and conf.get('reuse_unix') and os.path.exists(os.path.join(d.dir, 'reuse.sock')):
+        res.violation('C08/unix-socket-file-left[so_reuseport]', 'the file of the so_reuseport unix socket still exists '
+                      'after shutdown')
     if pidfile and os.path.exists(pidfile):
         res.violation('C08/pidfile-left[%s]' % conf['pidfile'], 'pid file %s still exists after shutdown (content %r)'
                       % (pidfile, open(pidfile).read()))
